@@ -89,6 +89,9 @@ def extra_pool():
   P['dataclass-factory'] = lambda: fdl.Config(pool.fc, fdl.Config(pool.DC), q=[fdl.Config(pool.DC, m=2)])
   P['partials-in-containers'] = lambda: fdl.Config(pool.fc, [fdl.Partial(pool.fb), fdl.Partial(pool.fb, 1)],
                                                    q={'p': fdl.Partial(pool.Cls)}, r=(fdl.Partial(pool.fc),))
+  # named tuples of literals keep their type (only plain tuples are "tuples of literals")
+  P['namedtuples-of-literals'] = lambda: fdl.Config(pool.fc, pool.Pt(3, 4), q=[pool.Pt(1), (pool.Pt(5, 6), 'a')],
+                                                    r={'shape': pool.Pt(7, (8, 9))})
   P['interned-tuples'] = lambda: fdl.Config(pool.fc, (1, 2), q=[(1, 2), ((3,), 'a')], r=((), (None,)))
   P['unset-tagged-in-container'] = lambda: fdl.Config(pool.fc, 1, q=[pool.TagA.new(), pool.TagB.new(5)])
   def tagged_shared_payload():
